@@ -245,13 +245,17 @@ def run(rep):
             base = E("BooleanGroup", SYM("Or"), kids(k))
             bad = []
             asym = 0
-            for perm in itertools.permutations(range(k)):
-                for vec in tri.vectors(k):
-                    pv = tuple(vec[p] for p in perm)
-                    if sem(base, {}, vec) != sem(base, {}, pv):
-                        bad.append("".join(vec))
-                    if sem(E("BooleanGroup", SYM("And"), kids(k)), {}, vec) != sem(E("BooleanGroup", SYM("And"), kids(k)), {}, pv):
-                        asym += 1
+            try:
+                for perm in itertools.permutations(range(k)):
+                    for vec in tri.vectors(k):
+                        pv = tuple(vec[p] for p in perm)
+                        if sem(base, {}, vec) != sem(base, {}, pv):
+                            bad.append("".join(vec))
+                        if sem(E("BooleanGroup", SYM("And"), kids(k)), {}, vec) != sem(E("BooleanGroup", SYM("And"), kids(k)), {}, pv):
+                            asym += 1
+            except tri.Unrecognised as e:
+                rep.lost("LAW", "LAW/or-symmetric/k=%d" % k, "the connective arms are inside the model language", str(e)[:160])
+                continue
             rep.check(not bad, "LAW", "LAW/or-symmetric/k=%d" % k, "src/solver.rs", "the result of an or-group is invariant under permutation of its operands", str(bad[:3]))
             rep.check(asym > 0, "LAW", "LAW/and-order-sensitive/k=%d" % k, "src/solver.rs", "the result of an and-group depends on operand order (false vs missing): this is why ORDER-AND is required", "%d witnesses" % asym)
         rep.extra["law_model_evaluations"] = nlaw[0]
